@@ -68,6 +68,66 @@ def honest_corpus(name: str) -> tuple[list, int]:
     return LATE_CACHE[name]
 
 
+def owned_pending_tasks(loop, ov) -> list[str]:
+    """
+    Pending asyncio tasks that run code of the overlay, its request cache or an exit socket it created - found from the
+    tasks themselves (coroutine frames, bound methods, closures), whether or not a TaskManager still keeps track of them.
+    """
+    import functools
+    rc = getattr(ov, "request_cache", None)
+
+    def owner_of(obj) -> str | None:
+        if obj is ov:
+            return type(ov).__name__
+        if rc is not None and obj is rc:
+            return "RequestCache"
+        if type(obj).__name__.endswith("ExitSocket") and getattr(obj, "overlay", None) is ov:
+            return type(obj).__name__
+        return None
+
+    def reach(obj, depth: int, seen: set) -> str | None:
+        if depth > 5 or id(obj) in seen:
+            return None
+        seen.add(id(obj))
+        o = owner_of(obj)
+        if o:
+            return o
+        nxt: list = []
+        if hasattr(obj, "__self__") and hasattr(obj, "__func__"):
+            nxt += [obj.__self__, obj.__func__]
+        if isinstance(obj, functools.partial):
+            nxt += [obj.func, *obj.args, *obj.keywords.values()]
+        if getattr(obj, "__closure__", None):
+            for cell in obj.__closure__:
+                try:
+                    nxt.append(cell.cell_contents)
+                except ValueError:
+                    pass
+        fr = getattr(obj, "cr_frame", None) or getattr(obj, "gi_frame", None)
+        if fr is not None:
+            nxt += list(fr.f_locals.values())
+        aw = getattr(obj, "cr_await", None)
+        if aw is not None:
+            nxt.append(aw)
+        if isinstance(obj, (tuple, list)) and len(obj) <= 8:
+            nxt += list(obj)
+        for x in nxt:
+            r = reach(x, depth + 1, seen)
+            if r:
+                return r
+        return None
+    out = []
+    cur = asyncio.current_task()
+    for t in asyncio.all_tasks(loop):
+        if t is cur or t.done():
+            continue
+        coro = t.get_coro()
+        o = reach(coro, 0, set())
+        if o:
+            out.append(f"{o}:{getattr(coro, '__qualname__', '?')}")
+    return out
+
+
 class UnloadRun:
     def __init__(self, case: dict) -> None:
         self.case = case
@@ -245,6 +305,12 @@ class UnloadRun:
         if pending:
             self.fail("U3", f"{name}:pending_task:{pending[0][0]}", f"{where}: tasks still pending after unload() "
                                                                     f"returned: {pending[:4]}")
+        await asyncio.sleep(0)
+        left = owned_pending_tasks(loop, ov)
+        if left:
+            self.fail("U3", f"{name}:untracked_task:{left[0].split(':')[0]}",
+                      f"{where}: asyncio tasks running code of the overlay / its exit sockets are still pending after "
+                      f"unload() returned (no task manager keeps track of them): {sorted(set(left))[:4]} x{len(left)}")
         open_tr = [t.local_addr for t in st["owned_transports"] if not t.closed]
         if open_tr:
             self.fail("U4", f"{name}:socket", f"{where}: outside sockets {open_tr} opened for this overlay are still open")
